@@ -35,6 +35,11 @@ def insts(dump):
     return reg, d
 
 
+def norm(dump):
+    """drop the identities of registry entries and of the instances' definitions"""
+    return re.sub(r"=(\d+)/\w+\{", r"=\1/{", re.sub(r"R\[[^\]]*\]", "R[]", dump))
+
+
 def target_of(op, ptrs=None):
     t = op.split()
     if t[0] == "W":
@@ -70,6 +75,8 @@ def analyse0(hist, impl, model, spec):
     prev = "R[]"
     links = set()      # pairs of instances joined by an accepted derefSet copy
     ptrs = {}          # p<pid> -> target instance
+    decl_diverged = False
+    corr_seen = False
     for k, op in enumerate(ops):
         ik, mk, sk = si[k], sm[k], ss[k]
         t = op.split()
@@ -77,7 +84,7 @@ def analyse0(hist, impl, model, spec):
         io, idump = ik[0], ik[2:]
         fail = None
         finding = None
-        if t[0] != "D":
+        if t[0][0] != "D":
             stats["checked"] += 1
             tgt = target_of(op, ptrs)
             if io == "P":
@@ -91,7 +98,7 @@ def analyse0(hist, impl, model, spec):
                         finding = "nonsymbol-key"
                     elif sk == "Estale" and mk == ik:
                         finding = "instance-type-by-name"
-                elif sk[2:] != idump:
+                elif (norm(sk[2:]) != norm(idump)) if decl_diverged else (sk[2:] != idump):
                     fail = "accepted, but the resulting state is not the one the specification allows"
                     _, a = insts(idump)
                     _, b = insts(sk[2:])
@@ -117,6 +124,14 @@ def analyse0(hist, impl, model, spec):
         if ik != mk:
             if not (fail and finding == "clonefrom-aliasing" and finding in KNOWN):
                 ev.append({"kind": "corr", "step": k, "finding": None, "detail": "implementation and model differ", "op": op, "implementation": ik, "model": mk})
+            if t[0][0] == "D" and io in "KE" and mk[0] in "KE" and not corr_seen:
+                # a declaration that took effect differently than modelled: keep going, judging the following
+                # steps by the specification evaluated in the MODEL's state (the declared semantics); identities
+                # of definitions are ignored from here on, instance contents and verdicts still count
+                decl_diverged = True
+                corr_seen = True
+                prev = idump
+                continue
             break          # later steps start from different states
         if t[0] == "R" and io == "K" and t[2].startswith("@"):
             links.add((int(t[1]), int(t[2][1:])))
